@@ -290,8 +290,13 @@ Inv_C03b(g) == Cardinality(CpSignedNums(g) \ g.cpRevoked) <= 2
 \* accepted revocation secret = secret of the point signed for that number
 Inv_C03c(g) == \A e \in g.cpSecrets :
                   \E f \in g.cpSigned : f[1] = e[1] /\ f[2] = PointOf(e[2])
-\* all accepted secrets belong to one derivation tree
-Inv_C03t(g) == \A e, f \in g.cpSecrets : e[2].t = f[2].t
+\* BOLT-3 consistency: whenever an accepted secret for number n can derive the secret of an
+\* earlier accepted number m (m lies in n's subtree), the two belong to the same tree.
+\* (A secret whose index has no trailing zero bits can derive nothing, so BOLT-3 cannot and
+\* does not constrain it at the time it is accepted.)
+Inv_C03t(g) == \A e, f \in g.cpSecrets :
+                  (f[1] < e[1] /\ InSubtree(e[1], TrailingOnes(e[1]), f[1]))
+                     => (e[2].t = f[2].t /\ e[2].n = e[1] /\ f[2].n = f[1])
 \* one point and one content per signed number
 Inv_C03d(g) == \A e, f \in g.cpSigned : e[1] = f[1] => e = f
 Inv_C03(g) == Inv_C03a(g) /\ Inv_C03b(g) /\ Inv_C03c(g) /\ Inv_C03t(g) /\ Inv_C03d(g)
